@@ -1043,7 +1043,8 @@ class World:
         try:
             # LinuxResourceService._run passes its realpath-resolved _dir
             impl.initialize(self.svc._dir)
-            watcher = dirwatch.DirWatcher(self.rsrc_dir)
+            watcher = simkit.with_os_resource(
+                lambda: dirwatch.DirWatcher(self.rsrc_dir))
             watcher.on_created = lambda p: self.svc._on_created(impl, p)
             watcher.on_deleted = lambda p: self.svc._on_deleted(impl, p)
             watcher.on_modified = lambda p: self.svc._on_created(impl, p)
